@@ -193,11 +193,13 @@ func c03() []*Ob {
 					MustPrecede(c, fn, Callee("(*frac.Loader).loadIDs"), "loadIDs", Callee("(*frac.Loader).loadLIDsBlocksTable"), "loadLIDsBlocksTable")
 				}
 				if fn := c.Fn("(*frac.Loader).skipTokens"); fn != nil {
-					n := len(CallsIn(fn, Callee("(*frac.Loader).skipBlock")))
-					if n == 2 {
+					runs, singles, unknown := skipRuns(c.P, fn, 3)
+					if unknown != "" {
+						c.Undecided("order:skipTokens:shape", fn.Pos(), "cannot count the block runs skipTokens walks: %s", unknown)
+					} else if runs == 2 && singles == 0 {
 						c.Site(fn.Pos(), "skipTokens skips exactly two empty-terminated runs (tokens, token table)")
 					} else {
-						c.Violation("order:skipTokens:runs", fn.Pos(), "skipTokens walks %d block runs; the writer emits two (tokens, token table) before the positions block", n)
+						c.Violation("order:skipTokens:runs", fn.Pos(), "skipTokens walks %d block runs and %d single blocks; the writer emits two runs (tokens, token table) before the positions block", runs, singles)
 					}
 				}
 				empty := Callee("(*disk.BlocksWriter).WriteEmptyBlock")
@@ -569,4 +571,56 @@ func shiftMaskConsts(fn *ssa.Function) map[string]bool {
 		}
 	}
 	return out
+}
+
+// skipRuns counts what a section skipper walks: runs = loops that call
+// Loader.skipBlock (an empty-terminated run of blocks), singles = skipBlock
+// calls outside any loop that do not feed such a loop (the init call of a
+// three-clause for is part of its loop's run). Calls of private helpers are
+// expanded; a helper that skips blocks called from inside a loop cannot be counted.
+func skipRuns(p *Prog, fn *ssa.Function, depth int) (runs, singles int, unknown string) {
+	skip := Callee("(*frac.Loader).skipBlock")
+	loops := map[*ssa.BasicBlock]bool{} // headers of loops with a skipBlock call
+	var outside []ssa.CallInstruction
+	for _, call := range CallsIn(fn, nil) {
+		l := InnermostLoop(call.Block())
+		if skip(call) {
+			if l != nil {
+				loops[l.Header] = true
+			} else {
+				outside = append(outside, call)
+			}
+			continue
+		}
+		callee := StaticCallee(call)
+		if callee == nil || callee.Blocks == nil || !p.InRepo(callee) || depth == 0 || !p.HasCall(callee, skip) {
+			continue
+		}
+		if l != nil {
+			return 0, 0, "helper " + FuncName(callee) + " skips blocks and is called inside a loop of " + FuncName(fn)
+		}
+		r, s1, u := skipRuns(p, callee, depth-1)
+		if u != "" {
+			return 0, 0, u
+		}
+		runs += r
+		singles += s1
+	}
+	runs += len(loops)
+	for _, call := range outside {
+		feeds := false
+		if v, ok := call.(ssa.Value); ok {
+			for _, r := range *v.Referrers() {
+				if ph, ok := r.(*ssa.Phi); ok {
+					if l := InnermostLoop(ph.Block()); l != nil && loops[l.Header] {
+						feeds = true
+					}
+				}
+			}
+		}
+		if !feeds {
+			singles++
+		}
+	}
+	return runs, singles, ""
 }
